@@ -184,7 +184,9 @@ Fixpoint with_coords_rand (kc j mode i : int) (l : list pt) : list (point fpt) :
   end.
 Definition rand_contour_of (key j : int) (l : list pt) : list (point fpt) :=
   let kc := mix (key + 2) in
-  with_coords_rand kc j (draw kc j 1048576 mod 3) 0 l.
+  (* the enumerated part of the segment-list stream uses small integers (readable replays) *)
+  let mode := if (1073741824 <=? j) && (j <? 1073741824 + 567) then 0 else draw kc j 1048576 mod 3 in
+  with_coords_rand kc j mode 0 l.
 Definition rand_contour (key j : int) : list (point fpt) :=
   rand_contour_of key j (map sym (gen_digits key j)).
 
@@ -269,3 +271,76 @@ Definition outline_ok (c : list (point fpt)) (impl : Z * list (Z * list Z)) : bo
   legalb (types fpt c) &&
   existsb (fun path => dump_eqb (dump_result (Ok path)) impl) (valid_outlines fpt fmid c).
 Definition digits_of (key j : int) : list Z := map Uint63.to_Z (gen_digits key j).
+
+(** ---------- the segment-list stream ----------
+    Legal contours built as lists of SEGMENTS (line | cubic with 0/1/2 off-curves | qcurve after
+    k off-curves | all off-curves), open, or closed under a rotation: long quadratic runs mixed
+    with cubics, run lengths around the powers of two, cumulative counts.  Case [j]:
+      j < 213          : line, k off-curves, qcurve, off, off, curve  (k = j / 3 in 0..70;
+                         j mod 3 = 0 closed as written, 1 closed under a drawn rotation, 2 open)
+      213 <= j < 567   : line, k1 offs, qcurve, k2 offs, qcurve, off, off, curve for every (k1, k2)
+                         with k1 + k2 in {15, 16, 31, 47, 63} (closed under a rotation / open)
+      otherwise        : a drawn list of up to 12 segments, at most 150 points. *)
+Definition D_MOVE : int := 0.  Definition D_LINE : int := 2.  Definition D_OFF : int := 4.
+Definition D_CURVE : int := 6. Definition D_QCURVE : int := 8.
+Definition offs_n (k : int) : list int := repeat D_OFF (Z.to_nat (Uint63.to_Z k)).
+Definition seg_sums : list nat := [15; 16; 31; 47; 63]%nat.
+Definition seg_triples : list (int * int) :=
+  flat_map (fun s => map (fun k1 => (Uint63.of_Z (Z.of_nat k1), Uint63.of_Z (Z.of_nat (s - k1))))
+                         (seq 0 (S s))) seg_sums.
+Definition N_PAIRS : int := 213.
+Definition N_TRIPLES : int := 354.     (* 2 * 177 *)
+Definition special_runs : list int := [14; 15; 16; 17; 30; 31; 32; 33; 63; 64; 65].
+Definition nth_int {A} (i : int) (l : list A) (d : A) : A := nth (Z.to_nat (Uint63.to_Z i)) l d.
+Definition irot (k : int) (l : list int) : list int := rot (Z.to_nat (Uint63.to_Z k)) l.
+Definition ilen (l : list int) : int := Uint63.of_Z (Z.of_nat (length l)).
+
+(** drawn segments: [i] = segment number, [len] = points so far *)
+Fixpoint seg_walk (ks j : int) (fuel : nat) (i len : int) : list int :=
+  match fuel with
+  | O => []
+  | S f =>
+      let d := draw ks j (10 + i) in
+      let r := d mod 100 in
+      let e := d >> 8 in
+      let sm := if (e >> 20) mod 3 =? 0 then 1 else 0 in
+      let sg :=
+        if r <? 20 then [D_LINE + sm]
+        else if r <? 30 then [D_CURVE + sm]
+        else if r <? 45 then [D_OFF; D_CURVE + sm]
+        else if r <? 70 then [D_OFF; D_OFF; D_CURVE + sm]
+        else
+          let r2 := e mod 10 in
+          let k := if r2 <? 5 then (e >> 4) mod 41
+                   else if r2 <? 8 then nth_int ((e >> 4) mod 11) special_runs 0
+                   else (e >> 4) mod 4 in
+          offs_n k ++ [D_QCURVE + sm] in
+      let len' := len + ilen sg in
+      if 150 <? len' then [] else sg ++ seg_walk ks j f (i + 1) len'
+  end.
+Definition seg_digits (key j : int) : list int :=
+  let ks := mix (key + 4) in
+  let rotd := fun l => irot (draw ks j 4 mod ilen l) l in
+  if j <? N_PAIRS then
+    let k := j / 3 in
+    let v := j mod 3 in
+    let body := offs_n k ++ [D_QCURVE; D_OFF; D_OFF; D_CURVE] in
+    if v =? 0 then D_LINE :: body else if v =? 1 then rotd (D_LINE :: body) else D_MOVE :: body
+  else if j <? N_PAIRS + N_TRIPLES then
+    let t := j - N_PAIRS in
+    let '(k1, k2) := nth_int (t / 2) seg_triples (0, 0) in
+    let body := offs_n k1 ++ [D_QCURVE] ++ offs_n k2 ++ [D_QCURVE; D_OFF; D_OFF; D_CURVE] in
+    if t mod 2 =? 0 then rotd (D_LINE :: body) else D_MOVE :: body
+  else if draw ks j 2 mod 12 =? 0 then offs_n (1 + draw ks j 3 mod 40)
+  else
+    let nseg := 1 + draw ks j 0 mod 12 in
+    let w := seg_walk ks j (Z.to_nat (Uint63.to_Z nseg)) 0 0 in
+    match w with
+    | [] => [D_LINE]
+    | _ => if draw ks j 1 mod 3 =? 0 then D_MOVE :: w else rotd w
+    end.
+Definition seg_contour (key j : int) : list (point fpt) :=
+  rand_contour_of key (j + 1073741824) (map sym (seg_digits key j)).
+Definition seg_model (key j : int) : int := model_h (seg_contour key j).
+Definition seg_spec (key j : int) : int := spec_h (seg_contour key j).
+Definition seg_digits_of (key j : int) : list Z := map Uint63.to_Z (seg_digits key j).
